@@ -65,7 +65,11 @@ def render_spec(spec):
 NEAR_MISSES = ['bytes=0-' + 'x' * 25, 'bytes=' + 'x' * 22 + '-', 'bytes=-' + '9' * 19 + 'x', 'bytes=0-' + '1' * 30 + 'e5', 'bytes= 1-2', 'bytes=1 -2', 'bytes=1- 2', 'bytes=+1-+3', 'bytes=1_0-2_0', 'bytes=١-٣', 'Bytes=0-1', 'BYTES=0-1',
                'xbytes=0-1', 'items=0-1', 'bytes=', 'bytes=-', 'bytes=--1', 'bytes=1-2-3', 'bytes=a-b', 'bytes=0x1-0x2', 'bytes0-1',
                '0-1', '', 'bytes=0-1bytes=2-3', 'bytes=1.0-2', 'bytes=-1-', 'bytes= -2', 'bytes=0-1;', 'bytes=,0-1', 'bytes=0-,',
-               'bytes=-+2', 'bytes=- 2', 'bytes=１-２', 'bytes=0-1\t', 'bytes=\t0-1', 'bytes==0-1', 'none', 'bytes=0--1']
+               'bytes=-+2', 'bytes=- 2', 'bytes=１-２', 'bytes=0-1\t', 'bytes=\t0-1', 'bytes==0-1', 'none', 'bytes=0--1',
+               # Latin-1 characters a server hands over as they come: superscript digits (digits to str.isdigit, not to int), fractions, NBSP
+               'bytes=\xb2-5', 'bytes=0-\xb9', 'bytes=-\xb3', 'bytes=\xb9\xb2-', 'bytes=1\xb2-20', 'bytes=\xbd-2', 'bytes=0-\xbc', 'bytes=\xa01-2', 'bytes=1-2\xa0', 'bytes=\xe9-\xe8',
+               # positions longer than the interpreter's limit for int() of a string (4300 digits)
+               'bytes=' + '1' * 4301 + '-', 'bytes=0-' + '9' * 5000, 'bytes=-' + '7' * 4400, 'bytes=' + '0' * 4400 + '1-', 'bytes=0-' + '0' * 4500 + '5']
 
 
 def file_content(n):
